@@ -5,25 +5,26 @@ Local Open Scope N_scope.
 
 Lemma take_begin_spec ll e : forall bs b rest,
   take_begin ll e bs = Some (b, rest) ->
-  In b bs /\ be_sym e = be_sym b /\ (be_line b < be_line e)%Z /\ length bs = S (length rest)
+  In b bs /\ be_id e = be_id b /\ be_sym e = be_sym b /\ (be_line b < be_line e)%Z /\ length bs = S (length rest)
   /\ (forall x, In x rest -> In x bs).
 Proof.
   induction bs as [|x r IH]; intros b rest H; cbn [take_begin] in H; [discriminate|].
-  destruct ((be_line x =? ll)%Z && str_eqb (be_sym e) (be_sym x) && (be_line x <? be_line e)%Z) eqn:Hc.
-  - injection H as <- <-. apply andb_prop in Hc. destruct Hc as [Hc H3]. apply andb_prop in Hc. destruct Hc as [_ H2].
-    apply str_eqb_eq in H2. repeat split; [left; reflexivity|exact H2|lia|intros y Hy; right; exact Hy].
+  destruct ((be_line x =? ll)%Z && str_eqb (be_id e) (be_id x) && str_eqb (be_sym e) (be_sym x) && (be_line x <? be_line e)%Z) eqn:Hc.
+  - injection H as <- <-. apply andb_prop in Hc. destruct Hc as [Hc H3]. apply andb_prop in Hc. destruct Hc as [Hc H2].
+    apply andb_prop in Hc. destruct Hc as [_ H1]. apply str_eqb_eq in H1. apply str_eqb_eq in H2.
+    repeat split; [left; reflexivity|exact H1|exact H2|lia|intros y Hy; right; exact Hy].
   - destruct (take_begin ll e r) as [[y r']|] eqn:Ht; [|discriminate]. injection H as <- <-.
-    destruct (IH _ _ eq_refl) as (H1 & H2 & H3 & H4 & H5). repeat split; auto.
+    destruct (IH _ _ eq_refl) as (H1 & H0 & H2 & H3 & H4 & H5). repeat split; auto.
     + right; exact H1.
     + cbn [length]. rewrite H4. reflexivity.
     + intros z [<-|Hz]; [left; reflexivity|right; apply H5; exact Hz].
 Qed.
 
 (* a block that results comes from a begin entry and a later-line end entry of the file with the
-   same symbol name; it carries the id of the END entry; its lines are theirs *)
+   same id and the same symbol name; its lines are theirs *)
 Definition block_ok (es : list bev) (k : block) : Prop :=
   exists b e, In b es /\ In e es /\ be_end b = false /\ be_end e = true
-              /\ be_sym e = be_sym b /\ (be_line b < be_line e)%Z
+              /\ be_id e = be_id b /\ be_sym e = be_sym b /\ (be_line b < be_line e)%Z
               /\ k = mkBlk (be_id e) (be_sym e) (be_line b) (be_line e).
 
 Definition inv (seen : list bev) (st : pstate) : Prop :=
@@ -45,7 +46,7 @@ Proof.
   destruct (be_end e) eqn:He.
   - destruct (last_line (ps_pending st)) as [ll|].
     + destruct (take_begin ll e (ps_pending st)) as [[b rest]|] eqn:Ht.
-      * destruct (take_begin_spec ll e _ _ _ Ht) as (H1 & H2 & H3 & H4 & H5).
+      * destruct (take_begin_spec ll e _ _ _ Ht) as (H1 & H0 & H2 & H3 & H4 & H5).
         destruct (Hp b H1) as [Hbs Hbb].
         split; [|split; [|split; [|exact I]]]; cbn [ps_pending ps_blocks ps_bad].
         { intros x Hx. destruct (Hp x (H5 x Hx)) as [Ha Hb']. split; [apply in_or_app; left; exact Ha|exact Hb']. }
@@ -87,19 +88,29 @@ Proof.
   destruct (fold_inv es [] _ H0) as (_ & Hb & Hc & _). cbn [app] in *. split; [exact Hb|lia].
 Qed.
 
-(* the documented use: one begin, one later end with the same symbol: one block over [begin,end] *)
-Theorem pair_single i1 i2 sy l1 l2 : (l1 < l2)%Z ->
-  pair_blocks [mkBE false i1 sy l1; mkBE true i2 sy l2] = ([mkBlk i2 sy l1 l2], 0).
+(* the documented use: one begin, one later end with the same id and symbol: one block over [begin,end] *)
+Theorem pair_single i sy l1 l2 : (l1 < l2)%Z ->
+  pair_blocks [mkBE false i sy l1; mkBE true i sy l2] = ([mkBlk i sy l1 l2], 0).
 Proof.
-  intros H. unfold pair_blocks. cbn [fold_left pair_step be_end ps_pending ps_blocks ps_bad app last_line be_line take_begin be_sym].
-  rewrite Z.eqb_refl, (proj2 (str_eqb_eq sy sy) eq_refl). assert (Hl : (l1 <? l2)%Z = true) by lia. rewrite Hl. reflexivity.
+  intros H. unfold pair_blocks. cbn [fold_left pair_step be_end ps_pending ps_blocks ps_bad app last_line be_line take_begin be_sym be_id].
+  rewrite Z.eqb_refl, (proj2 (str_eqb_eq i i) eq_refl), (proj2 (str_eqb_eq sy sy) eq_refl).
+  assert (Hl : (l1 <? l2)%Z = true) by lia. rewrite Hl. reflexivity.
 Qed.
 
-(* the ids of begin and end are not compared: begin uninitvar ... end nullPointer gives a block
-   suppression for nullPointer without any diagnostics *)
+(* an end that names another id than the pending begin closes nothing (fix ec62462): both
+   comments are reported invalid, no block suppression results *)
+Theorem pair_other_id i1 i2 sy l1 l2 : i1 <> i2 ->
+  pair_blocks [mkBE false i1 sy l1; mkBE true i2 sy l2] = ([], 2).
+Proof.
+  intros H. unfold pair_blocks. cbn [fold_left pair_step be_end ps_pending ps_blocks ps_bad app last_line be_line take_begin be_sym be_id].
+  assert (Hi : str_eqb i2 i1 = false).
+  { destruct (str_eqb i2 i1) eqn:E; [|reflexivity]. apply str_eqb_eq in E. congruence. }
+  rewrite Hi, andb_false_r. cbn. reflexivity.
+Qed.
+
 Definition S_UNINITVAR : str := [117;110;105;110;105;116;118;97;114].
 Definition S_NULLPTR : str := [110;117;108;108;80;111;105;110;116;101;114].
-Lemma pair_ids_not_compared :
-  pair_blocks [mkBE false S_UNINITVAR [] 3; mkBE true S_NULLPTR [] 5] = ([mkBlk S_NULLPTR [] 3 5], 0)
-  /\ S_UNINITVAR <> S_NULLPTR.
-Proof. split; [vm_compute; reflexivity|discriminate]. Qed.
+(* the input that refuted "same id" before the fix *)
+Lemma former_pair_witness :
+  pair_blocks [mkBE false S_UNINITVAR [] 3; mkBE true S_NULLPTR [] 5] = ([], 2).
+Proof. vm_compute. reflexivity. Qed.
